@@ -27,7 +27,7 @@ def demangle(n):
 
 
 # sizes of the opaque value types declared in witness/types.hpp
-VALUE_TYPES = {"cv::Obj": 8, "cv::Obj4": 4, "cv::ObjThrowMove": 8}
+VALUE_TYPES = {"cv::Obj": 8, "cv::Obj4": 4, "cv::ObjThrowMove": 8, "cv::ObjTD": 8}
 
 _VT = "|".join(re.escape(k) for k in VALUE_TYPES)
 _RX = [
